@@ -131,6 +131,14 @@ def run_case(case):
         return {'skip': 'invalid-pattern-encoder', 'tags': tags}
     except Exception as e:
         return {'fail': {'clause': 'manager-construction-raises:%s' % type(e).__name__, 'detail': '%s %s: %s: %s' % (fam[0], imp[0], type(e).__name__, e)}, 'tags': tags}
+    return check_manager(mgr, c, pats, rng, tags, fam[0], imp[0], fam[3])
+
+
+def check_manager(mgr, c, pats, rng, tags, enc_label, imp_label, kind):
+    """decode tables of one manager for every pattern -> the run_case result (queries for coding_verdict + impl facts)"""
+    import numpy as np
+    fam = (enc_label, None, None, kind)
+    imp = (imp_label,)
     dvs = mgr.design_vars
     nopts = [int(dv.n_opts) for dv in dvs]
     ssx = matcase.sx_settings(c)
